@@ -51,8 +51,7 @@ def handleObj (tree : Obj) (impl : String) : String × String :=
         let c1 : List String :=
           (if hasBadName NameAscii tree then ["nonascii"] else []) ++
           (if hasRefLike wantTree then ["reflike"] else []) ++
-          (if hasBigReal tree then ["bigreal"] else []) ++
-          (if hasFarRef tree then ["farref"] else [])
+          (if hasBigReal tree then ["bigreal"] else [])
         -- no defect class is left on the independent-reader side: a T2 failure is never explained
         let c2 : List String := []
         let explained := (t1 || !c1.isEmpty) && (t2 || !c2.isEmpty) && model == impl
